@@ -6,16 +6,16 @@ from hblib import x, jtok
 from wsspec import tag, text, expected, source
 from families.common import rcase, res_of
 
-RULE = ('grid: 14 tag kinds x {none, ~ before, ~ after, both} x 12 left contexts x 12 right contexts '
-        '(start/end of template, LF, CRLF, spaces, tabs, text, blank lines, lone CR) — every cell in thorough, '
+RULE = ('grid: 14 tag kinds x {none, ~ before, ~ after, both} x 14 left contexts x 14 right contexts '
+        '(start/end of template, LF, CRLF, spaces, tabs, text, blank lines, lone CR, non-ASCII whitespace) — every cell in thorough, '
         'a seeded third in quick — plus random multi-line templates built from lines holding text, value '
         'tags and standalone-capable tags; oracle: the whitespace rules of the property text (tools/wsspec.py). '
         'Non-trivial = the cell contains whitespace adjacent to the tag')
 EXHAUSTIVE = {'quick': False, 'thorough': True}
 ASSUMPTIONS = ['tools/wsspec.py transcribes the whitespace rules of the property text']
 
-LEFT = ['', 'x', 'x\n', 'x\n  ', '  ', '\t', 'x  ', 'x\r\n', 'x\r\n\t ', 'x\n\n  ', ' \n ', 'x\r  ']
-RIGHT = ['', 'y', '\ny', '  \ny', '  ', ' y', '\r\ny', ' \t\r\ny', '\n\ny', '\n', ' \n  y', '\ry']
+LEFT = ['', 'x', 'x\n', 'x\n  ', '  ', '\t', 'x  ', 'x\r\n', 'x\r\n\t ', 'x\n\n  ', ' \n ', 'x\r  ', 'x\n\u00a0', '\u3000']
+RIGHT = ['', 'y', '\ny', '  \ny', '  ', ' y', '\r\ny', ' \t\r\ny', '\n\ny', '\n', ' \n  y', '\ry', '\u2003\ny', '\u00a0']
 DATA = {'v': 'V', 't': True, 'u': True, 'o': {'k': 'K'}, 'l': [1]}
 PARTS = {'p': 'P', 'pb': '[{{> @partial-block}}]'}
 
